@@ -146,6 +146,13 @@ def bind(chk: Check, tier: str, seed: int):
         for f in enc._encode_fast_message(pgn, fp.PRIO, src, dst, payload):
             f = list(f)
             seq, fc = f[0] >> 5, f[0] & 31
+            if fc == 0 and n_msg % 2:
+                # a copy of the first frame cut after its counter byte comes first (refused with an error, no step of the
+                # receiver): the intact retransmission that follows starts the message
+                try:
+                    dec.decode_tcp(fp.ebyte_packet(pgn, src, dst, fp.PRIO, bytes(f[:1])))
+                except Exception:          # noqa: BLE001
+                    pass
             tr.append(fp.feed(dec, s, seq, fc, f[1] if fc == 0 else 0, f[2:] if fc == 0 else f[1:]))
             lab.append("wrap-on-one-stream")
     traces.append(tr)
